@@ -177,6 +177,7 @@ class ProtocolContext:
             if timed_out:
                 if self._cmd is None or not isinstance(self._state, WantEcho):
                     return  # superseded: the state changed before this deferred call ran
+                self._cmd_tx_count += 1  # not before: a superseded retry is not a Tx
                 self._send_cmd(self._cmd, is_retry=True)
 
             if isinstance(self._state, IsInIdle):
@@ -270,7 +271,7 @@ class ProtocolContext:
             assert isinstance(
                 self._cmd_tx_count, int
             ), f"{self}: Coding error"  # mypy hint
-            self._cmd_tx_count += 1
+            # NOTE: tx_count is incremented when the re-transmit is actually made
 
         elif isinstance(self._state, WantEcho):
             assert self._qos is not None, f"{self}: Coding error"  # mypy hint
